@@ -24,7 +24,8 @@ theorem filt_loop (h : Hdr) (acc : Hdr) :
     · rw [show filtStep acc p = acc from if_neg hc, if_neg hc]
       exact ih _
 
-theorem filter_eq_foldl (h : Hdr) : server_filterRequestHeader h = h.foldl filtStep h := by
+theorem filter_eq_foldl (h : Hdr) :
+    server_filterRequestHeader h = (Hdr.dropConnNamed h).foldl filtStep (Hdr.dropConnNamed h) := by
   simp only [server_filterRequestHeader, Id.run]
   rw [filt_loop]
   rfl
@@ -120,6 +121,47 @@ theorem foldl_wf (l : Hdr) (acc : Hdr) (hwf : RespPath.WF acc) : RespPath.WF (l.
     split
     · exact del_wf _ _ hwf
     · exact hwf
+
+theorem foldl_del_wf (ks : List Bytes) (h : Hdr) (hwf : RespPath.WF h) : RespPath.WF (ks.foldl Hdr.del h) := by
+  induction ks generalizing h with
+  | nil => exact hwf
+  | cons a t ih =>
+    simp only [List.foldl_cons]
+    exact ih _ (del_wf _ _ hwf)
+
+theorem dropConnNamed_wf (h : Hdr) (hwf : RespPath.WF h) : RespPath.WF (Hdr.dropConnNamed h) :=
+  foldl_del_wf _ _ hwf
+
+/-! ### the whole filter: `dropConnNamed`, then the loop over the remaining keys -/
+
+theorem filter_values_hop (h : Hdr) (hwf : RespPath.WF h) (k : Bytes) (hk : server_isHopByHopHeader k = true) :
+    Hdr.values (server_filterRequestHeader h) k = [] := by
+  rw [filter_eq_foldl]
+  have hg := dropConnNamed_wf h hwf
+  by_cases hm : k ∈ (Hdr.dropConnNamed h).map (·.1)
+  · exact foldl_removes _ _ k hg.2 hk hm
+  · exact foldl_values_nil _ _ k (values_nil_of_not_key _ k hm)
+
+theorem filter_values_nominated (h : Hdr) (k : Bytes) (hk : k ∈ Hdr.connDrops h) :
+    Hdr.values (server_filterRequestHeader h) k = [] := by
+  rw [filter_eq_foldl]
+  exact foldl_values_nil _ _ k (ConnOpt.values_dropConnNamed_mem h k hk)
+
+theorem filter_values_keep (h : Hdr) (hwf : RespPath.WF h) (k : Bytes) (hk : server_isHopByHopHeader k = false)
+    (hn : k ∉ Hdr.connDrops h) :
+    Hdr.values (server_filterRequestHeader h) k = Hdr.values h k := by
+  rw [filter_eq_foldl, foldl_values_keep _ _ k (dropConnNamed_wf h hwf).2 hk]
+  exact ConnOpt.values_dropConnNamed_ne h k hn
+
+/-- the filter never adds a field -/
+theorem filter_values_nil (h : Hdr) (k : Bytes) (hv : Hdr.values h k = []) :
+    Hdr.values (server_filterRequestHeader h) k = [] := by
+  rw [filter_eq_foldl]
+  exact foldl_values_nil _ _ k (ConnOpt.values_dropConnNamed_nil h k hv)
+
+theorem filter_wf (h : Hdr) (hwf : RespPath.WF h) : RespPath.WF (server_filterRequestHeader h) := by
+  rw [filter_eq_foldl]
+  exact foldl_wf _ _ (dropConnNamed_wf h hwf)
 
 /-- `Connection` is hop-by-hop for the proxy's filter -/
 theorem conn_is_hop : server_isHopByHopHeader Hdr.connKey = true := by decide
